@@ -27,6 +27,7 @@ TRUSTED = [
     "Python glue: scenario generator, path normalisation relative to the dataset root, value canonicalisation of frames, fault injector",
 ]
 
+NPROC = 8
 VARIANTS = {"open": ["pre", "post"], "write": ["pre", "short", "post"], "close": ["post"], "mkdir": ["pre", "post"]}
 
 
@@ -110,6 +111,10 @@ def fresh_read(root, rec=None):
 
 
 # ---------------------------------------------------------------------------------------------
+class _TornSummary(Exception):
+    pass
+
+
 def run_scenario(arg):
     """Worker: everything that touches the real code for one scenario.  Returns plain data."""
     sc, scratch, tier, only = arg
@@ -142,6 +147,10 @@ def run_scenario(arg):
                  "trace": rec.trace, "kinds": rec.kinds, "bypassed": rec.bypassed}
             rr = dsfs.Recorder(work)
             try:
+                if raised is not None and rec.fired is not None and rec.fired[2] == dsfs.MD and dsfs.md_open_index(rec.trace) is not None:
+                    # _metadata was write-opened and the failing call names it: the summary IS being rewritten (outside the property) and may be
+                    # torn; fastparquet's thrift reader can spin forever on a torn footer (seen: notes/C19.md), so no fresh open here
+                    raise _TornSummary()
                 with rr:
                     pf, vals = fresh_read(work, rr)
                 r["read"] = "old" if vals == old_vals else ("new" if vals == want_new else "other")
@@ -149,6 +158,8 @@ def run_scenario(arg):
                     r["read_detail"] = {"rows": len(vals[0][1]) if vals else 0, "refs": dsfs.refs_of(pf)[-6:]}
                 r["read_opens"] = sorted(set(x for x in rr.reads if x not in ("",)))
                 r["refs_after"] = dsfs.refs_of(pf)
+            except _TornSummary:
+                r["read"] = "not-read(fault inside the rewrite of _metadata)"
             except BaseException as e:           # noqa
                 r["read"] = "unreadable"
                 r["read_detail"] = "%s: %s" % (type(e).__name__, str(e)[:200])
@@ -229,8 +240,9 @@ def run(ctx):
             sc["id"] = 100000 + i
             scs.insert(0, sc)
     args = [(sc, ctx.scratch, ctx.tier, None) for sc in scs]
-    with mp.get_context("fork").Pool(14) as pool:
-        results = pool.map(run_scenario, args, chunksize=1)
+    with mp.get_context("fork").Pool(NPROC) as pool:
+        # a hang of the real code must end the check, not block it
+        results = pool.map_async(run_scenario, args, chunksize=1).get(timeout=900 if ctx.quick() else 3000)
     pq = C.Pqref()
     by_id = {sc["id"]: sc for sc in scs}
     cmds, meta = [], []
